@@ -241,6 +241,9 @@ func rawQueryAfterMutators(c *Ctx) {
 		}
 	}
 	if len(muts) == 0 {
+		muts = mutatorCallPoints(fn, "MutateOperationParameters")
+	}
+	if len(muts) == 0 {
 		c.R.Fail("query-read-after-mutators: CreateOperationContext calls no parameter mutator")
 		return
 	}
